@@ -233,6 +233,18 @@ func c01Writers() []c01Writer {
 			}
 			return os.ReadFile(p)
 		}},
+		{"deferred.ForStream(io.WriterAt, WriteAsCarV1(false))", func(c lab.Cfg, b []refcar.Block) bool { return !c.V1 && len(b) > 0 }, func(dir string, roots []cid.Cid, cfg lab.Cfg, blks []refcar.Block) ([]byte, error) {
+			mf := iofault.New(nil)
+			mf.NoLog = true
+			w := deferred.NewDeferredCarWriterForStream(mf, roots, append(cfg.Opts(), carv2.WriteAsCarV1(false))...)
+			if err := putAll(w, blks); err != nil {
+				return nil, err
+			}
+			if err := w.Close(); err != nil {
+				return nil, err
+			}
+			return mf.Bytes(), nil
+		}},
 		{"deferred.ForStream", func(c lab.Cfg, b []refcar.Block) bool { return c.V1 && len(b) > 0 }, func(dir string, roots []cid.Cid, cfg lab.Cfg, blks []refcar.Block) ([]byte, error) {
 			var buf bytes.Buffer
 			w := deferred.NewDeferredCarWriterForStream(&buf, roots, cfg.Opts()...)
